@@ -143,10 +143,10 @@ def fireChain : List Listeners → Ev → List Handler
   | none :: _, _ => []
   | some ls :: rest, ev => ((ls.filter (fun p => p.1 = ev)).map (·.2)) ++ fireChain rest ev
 
-/-- listeners `_connect_once.create_session` puts on each session (in registration order) -/
-def sessionOwn (hasMain : Bool) : Listeners :=
-  some ([(Ev.leave, Handler.onLeave)] ++ (if hasMain then [(Ev.join, Handler.onJoin)] else [])
-        ++ [(Ev.disconnect, Handler.onDisconnect)])
+/-- listeners `_connect_once.create_session` puts on each session (in registration order; `on_join` is registered
+whether or not a main was given) -/
+def sessionOwn : Listeners :=
+  some [(Ev.leave, Handler.onLeave), (Ev.join, Handler.onJoin), (Ev.disconnect, Handler.onDisconnect)]
 
 def compNode (ls : List Ev) : Listeners :=
   if ls.isEmpty then none else some (ls.map fun e => (e, Handler.user e))
@@ -184,10 +184,12 @@ structure State where
   done : Option Bool      -- `_done_f`: write-once
   zs : List Q             -- jitter samples still to be consumed
   nsess : Nat
+  stopping : Bool         -- `_stopping`: set by stop(), cleared by `_start`
 deriving Repr
 
 def init (cfg : Cfg) (trs : List Tr) (zs : List Q) : State :=
-  { cfg, trs, cursor := 0, phase := .idle, now := Q.zero, done := none, zs, nsess := 0 }
+  { cfg, trs, cursor := 0, phase := .idle, now := Q.zero, done := none, zs, nsess := 0,
+    stopping := false }
 
 def updAt (f : Tr → Tr) : List Tr → Nat → List Tr
   | [], _ => []
@@ -195,7 +197,7 @@ def updAt (f : Tr → Tr) : List Tr → Nat → List Tr
   | t :: ts, i + 1 => t :: updAt f ts i
 
 def sfire (cfg : Cfg) (ev : Ev) (n : Nat) : List Obs :=
-  .sfire ev n :: userCalls n (fireChain [sessionOwn cfg.hasMain, compNode cfg.listeners] ev)
+  .sfire ev n :: userCalls n (fireChain [sessionOwn, compNode cfg.listeners] ev)
 
 /-- `txaio.resolve/reject(self._done_f, …)`: after the first completion `_done_f` is `None` (`_reset`), so a later
 write raises instead of completing anything. -/
@@ -217,9 +219,17 @@ def pick (trs : List Tr) : Nat → Nat → Option Nat
     | none => none
     | some t => if t.canReconnect then some (cur % trs.length) else pick trs (cur + 1) fuel
 
+/-- `transport_check` after stop(): `if self._stopping:` resolve `_done_f` if it is still open, and return — nothing is
+scheduled any more -/
+def stopCheck (s : State) : State × List Obs :=
+  match s.done with
+  | none => ({ s with done := some true, phase := .dead }, [.done true])
+  | some _ => ({ s with phase := .dead }, [])
+
 /-- `transport_check` -/
 def transportCheck (s : State) : State × List Obs :=
-  if !(s.trs.any Tr.canReconnect) then
+  if s.stopping then stopCheck s
+  else if !(s.trs.any Tr.canReconnect) then
     let r := setDone false s
     ({ r.1 with phase := .dead }, r.2)
   else
@@ -255,9 +265,10 @@ def sessionDone (i : Nat) (fatal : Bool) (s : State) : State × List Obs :=
       (r.1, .lateDone true :: r.2)
     else ({ s with phase := .dead }, [.lateDone true])
 
-/-- `on_join` (registered only when a main is given): `transport.reset(); transport.connect_sucesses += 1` -/
+/-- `on_join` (registered on every session): `transport.reset(); transport.connect_sucesses += 1`; main is run
+afterwards if there is one -/
 def joinOn (i : Nat) (s : State) : State :=
-  if s.cfg.hasMain then { s with trs := updAt (fun t => { t.reset with successes := 1 }) s.trs i } else s
+  { s with trs := updAt (fun t => { t.reset with successes := 1 }) s.trs i }
 
 /-- session creation up to `ready` -/
 def joinedPre (c : Cfg) (n i : Nat) : List Obs :=
@@ -308,21 +319,22 @@ def onSess (e : SessEv) (fatal : Bool) (s : State) : State × List Obs :=
     (r.1, [.cleanEnd i] ++ sfire c .leave n ++ r.2 ++ sfire c .disconnect n)
   | _, _ => (s, [])
 
-/-- `Component.stop()` -/
+/-- `Component.stop()`: `_stopping = True`, then … -/
 def onStop (s : State) : State × List Obs :=
   match s.phase with
-  | .idle => (s, [])
+  | .idle => (s, [])        -- before start(): raises, and `_start` clears `_stopping` again
   | .waiting _ _ =>
     -- cancel `_delay_f` → `error()` → `_stopping` → resolve `_done_f`; nothing is scheduled any more
-    let r := setDone true s
+    let r := setDone true { s with stopping := true }
     ({ r.1 with phase := .dead }, .stop :: r.2)
   | .connecting _ =>
-    -- neither an attached session nor a delay: `_done_f` is resolved directly; the connect in flight is *not* cancelled
+    -- neither an attached session nor a delay: `_done_f` is resolved directly; the connect in flight is not
+    -- cancelled, but whatever becomes of it `transport_check` will not start another one
     match s.done with
-    | none => ({ s with done := some true }, [.stop, .done true])
-    | some _ => (s, [.stop])
-  | .up i => ({ s with phase := .closing i }, [.stop])      -- `session.leave()`
-  | _ => (s, [.stop])
+    | none => ({ s with stopping := true, done := some true }, [.stop, .done true])
+    | some _ => ({ s with stopping := true }, [.stop])
+  | .up i => ({ s with stopping := true, phase := .closing i }, [.stop])      -- `session.leave()`
+  | _ => ({ s with stopping := true }, [.stop])
 
 def step (s : State) : Event → State × List Obs
   | .start =>
@@ -359,7 +371,6 @@ def State.idle (s : State) : Bool :=
 transports.  `Core` is pure bookkeeping over what has been observed so far (attempts per transport since its last
 successful join, transports whose error was classified fatal, whether stop() was called, …); every clause of the
 property is a check `Chk` of the next observation against that bookkeeping plus a check `Fin` at the end of the log.
-`resetOnJoin = true` is the property as stated ("since that transport's last successful join").
 Listener bubbling has its own small monitor `Fire`. -/
 namespace Spec
 
@@ -367,11 +378,10 @@ structure Conf where
   n : Nat
   mr : Nat → Int
   maxD : Nat → Q
-  resetOnJoin : Bool
   listeners : List Ev
 
 structure Core where
-  cnt : Nat → Nat := fun _ => 0        -- attempts since the last join (or ever)
+  cnt : Nat → Nat := fun _ => 0        -- attempts since the last successful join
   ever : Nat → Nat := fun _ => 0       -- attempts ever
   failed : Nat → Bool := fun _ => false
   last : Option Nat := none            -- last attempted transport
@@ -383,11 +393,11 @@ structure Core where
 
 def upd (f : Nat → α) (i : Nat) (v : α) : Nat → α := fun j => if j = i then v else f j
 
-def Core.feed (c : Conf) (k : Core) : Obs → Core
+def Core.feed (_c : Conf) (k : Core) : Obs → Core
   | .att i _ _ =>
     { k with cnt := upd k.cnt i (k.cnt i + 1), ever := upd k.ever i (k.ever i + 1), last := some i,
              started := true, pendingRaise := false, pendingClean := false }
-  | .join i => if c.resetOnJoin then { k with cnt := upd k.cnt i 0 } else k
+  | .join i => { k with cnt := upd k.cnt i 0 }
   | .fatal i => { k with failed := upd k.failed i true }
   | .mainRaised _ => { k with pendingRaise := k.done.isNone }
   | .cleanEnd _ => { k with pendingClean := true }
@@ -516,10 +526,10 @@ def bubbleSpec (c : Conf) (log : List Obs) : Bool := bubbleAll c.listeners {} lo
 
 end Spec
 
-def confOf (trs : List Tr) (listeners : List Ev) (resetOnJoin : Bool) : Spec.Conf :=
+def confOf (trs : List Tr) (listeners : List Ev) : Spec.Conf :=
   { n := trs.length,
     mr := fun i => match trs[i]? with | some t => t.maxRetries | none => 0,
     maxD := fun i => match trs[i]? with | some t => t.maxDelay | none => Q.zero,
-    resetOnJoin, listeners }
+    listeners }
 
 end Abverif.Comp
